@@ -413,6 +413,103 @@ def eval_terminal(case):
     return out
 
 
+VALUE_TYPES = {"int8": 100, "int16": 300, "int32": 70000, "uint8": 200, "float16": 300.0, "float32": 0.1, "float64": 0.1, "int64": 7}
+
+
+def eval_value_types(case):
+    """The numeric TYPE of the values entered does not matter: the recorded moments are those of the numbers."""
+    from physt import h1
+    from physt.types import Histogram1D
+
+    vt, path, w = case["vtype"], case["path"], case["w"]
+    dt = np.dtype(vt)
+    v = dt.type(VALUE_TYPES[vt])
+    x = frac(float(v))
+    edges = np.array([0.0, 1.0, 1000.0, 100000.0])
+    n = 3
+    ww = frac(1 if w is None else w)
+
+    def build():
+        if path == "fill":
+            h = Histogram1D(edges)
+            for _ in range(n):
+                h.fill(v) if w is None else h.fill(v, w)
+            return h
+        arr = np.array([v] * n, dtype=dt)
+        kw = {} if w is None else {"weights": np.array([w] * n)}
+        if path == "fill_n":
+            h = Histogram1D(edges)
+            h.fill_n(arr, **({} if w is None else {"weights": kw["weights"]}))
+            return h
+        return h1(arr, edges, **kw)
+
+    res = call(build)
+    sig = f"value_type|{vt}|{path}"
+    if not res.ok:
+        return [V("must_succeed", f"{sig}|{exc_sig(res.exc)}", case, "a histogram", res.describe())]
+    st = res.value.statistics
+    want = {"sum": n * ww * x, "sum2": n * ww * x * x, "weight": n * ww, "min": x, "max": x}
+    out = []
+    tol = 1e-6 if vt in ("float16", "float32") else 1e-12
+    bad = {}
+    for k, wv in want.items():
+        g = float(getattr(st, k))
+        if not (math.isfinite(g) and abs(g - float(wv)) <= tol * max(abs(float(wv)), 1e-300)):
+            bad[k] = fl(g)
+    if bad:
+        out.append(V("statistics", f"{sig}|{'+'.join(sorted(bad))}", case, {k: float(v_) for k, v_ in want.items()}, bad))
+    # identical values: the variance is 0 up to rounding and never negative, the standard deviation is a number
+    var, std = st.variance(), st.std()
+    if not (var >= 0) or not math.isfinite(std) or std > 1e-6 * max(1.0, abs(float(x))):
+        out.append(V("variance_nonnegative", f"{sig}|variance_of_identical_values", case, "variance >= 0, std ~ 0", {"variance": fl(var), "std": fl(std)}))
+    return out
+
+
+def eval_constant(case):
+    """n identical values: variance() >= 0 and std() is a number close to 0 (sum2 - sum^2/weight leaves a rounding residue of either sign)."""
+    from physt import h1
+
+    v, n, path = case["value"], case["n"], case["path"]
+    edges = np.array([-10.0, 0.0, 10.0])
+    if path == "construct":
+        h = h1(np.full(n, v), edges)
+    else:
+        h = h1(None, edges)
+        for _ in range(n):
+            h.fill(v)
+    st = h.statistics
+    var, std = st.variance(), st.std()
+    if not (var >= 0) or not math.isfinite(std) or std > 1e-7 * max(1.0, abs(v)):
+        return [V("variance_nonnegative", f"constant_data|{path}", case, "variance >= 0, std ~ 0", {"variance": fl(var), "std": fl(std)})]
+    return []
+
+
+def eval_self_add(case):
+    """h += h, h + h, sum([h, h]): twice the weight and sums, same minimum / maximum."""
+    data, w, how = case["data"], case["w"], case["how"]
+    h = mk_hist(data, w)
+    st0 = h.statistics
+    want = {"sum": 2 * frac(float(st0.sum)), "sum2": 2 * frac(float(st0.sum2)), "weight": 2 * frac(float(st0.weight))}
+    if how == "iadd_self":
+        h += h
+        r = h
+    elif how == "add_self":
+        r = h + h
+    elif how == "sum_self":
+        r = sum([h, h])
+    else:
+        c = h.copy()
+        c += h
+        r = c
+    st = r.statistics
+    bad = {k: fl(getattr(st, k)) for k, v in want.items() if not (math.isfinite(float(getattr(st, k))) and frac(float(getattr(st, k))) == v)}
+    if data and (st.min != st0.min or st.max != st0.max):
+        bad["min/max"] = [fl(st.min), fl(st.max)]
+    if bad:
+        return [V("statistics_added", f"self_add|{how}|{'+'.join(sorted(bad))}", case, {k: float(v) for k, v in want.items()}, bad)]
+    return []
+
+
 def eval_adaptive_add(case):
     """Statistics of a + b for adaptive fixed-width histograms whose bins differ (the sum re-bins both)."""
     from physt import h1
@@ -475,6 +572,7 @@ def units(tier, seed):
         us.append({"kind": "bfs", "config": {"start": [data, w], "N": N}})
     us.append({"kind": "terminal"})
     us.append({"kind": "adaptive_add"})
+    us.append({"kind": "value_types"})
     return us
 
 
@@ -486,6 +584,33 @@ def run_unit(unit, ctx):
         H.dfs_validate(sysm, p, seen, 2, ctx, op_filter=lambda op: op[0] in ("fill", "mul", "add", "copy"))
         p.outcome(f"start={len(unit['config']['start'][0])}:{unit['config']['start'][1]}")
         p.sample({"config": unit["config"], "a_state_history": H.listify(list(seen.values())[-1][3])})
+    elif unit["kind"] == "value_types":
+        case = None
+        for vt in VALUE_TYPES:
+            for path in ("fill", "fill_n", "construct"):
+                for w in (None, 2, 0.5):
+                    case = {"vt": True, "vtype": vt, "path": path, "w": w}
+                    p.ev(True)
+                    p.states += 1
+                    p.outcome("value_types")
+                    p.extend(eval_value_types(case))
+        for k in range(1, 100):
+            for n in (2, 3, 5, 7):
+                for path in ("construct", "fill"):
+                    case = {"constant": True, "value": k / 100.0, "n": n, "path": path}
+                    p.ev(True)
+                    p.states += 1
+                    p.outcome("constant")
+                    p.extend(eval_constant(case))
+        for data in ([], [0.25], [0.25, 1.75, 3.5], [0.5, 0.5]):
+            for w in WEIGHTS:
+                for how in ("iadd_self", "add_self", "sum_self", "copy_iadd"):
+                    case = {"self_add": True, "data": data, "w": w, "how": how}
+                    p.ev(bool(data))
+                    p.states += 1
+                    p.outcome("self_add")
+                    p.extend(eval_self_add(case))
+        p.sample(case)
     elif unit["kind"] == "adaptive_add":
         sets = [[], [0.5], [0.25, 1.75], [5.5, 7.25], [-3.5], [2.0, 2.0, 9.75]]
         for da in sets:
@@ -517,6 +642,12 @@ def run_unit(unit, ctx):
 
 
 def replay(case):
+    if case.get("vt"):
+        return eval_value_types(case)
+    if case.get("constant"):
+        return eval_constant(case)
+    if case.get("self_add"):
+        return eval_self_add(case)
     if "kind" in case and "data" in case:
         return eval_terminal(case)
     if "a" in case and "b" in case:
